@@ -46,6 +46,8 @@ theorem whileLoop_rel {step step' : State N → Res N (Option (Ctl N))}
         · subst ha; exact RRel.mono hle (RRel.okEq hs)
     · obtain ⟨rfl, β1, hle, hs⟩ := hr
       exact RRel.mono hle (RRel.err hs)
+    · exact RRel.timeout_left hr _
+    · exact RRel.timeout_left hr _
     · exact RRel.timeout
 
 theorem forLoop_rel {body body' : N.F → State N → Res N (Ctl N)}
@@ -79,6 +81,8 @@ theorem forLoop_rel {body body' : N.F → State N → Res N (Ctl N)}
         · subst ha; exact RRel.mono hle (RRel.okEq hs)
       · obtain ⟨rfl, β1, hle, hs⟩ := hr
         exact RRel.mono hle (RRel.err hs)
+      · exact RRel.timeout_left hr _
+      · exact RRel.timeout_left hr _
       · exact RRel.timeout
 
 theorem gforLoop_rel {iter iter' : Val N → State N → Res N (List (Val N))}
@@ -122,9 +126,13 @@ theorem gforLoop_rel {iter iter' : Val N → State N → Res N (List (Val N))}
           · subst ha2; exact RRel.mono hle' (RRel.okEq hs2)
         · obtain ⟨rfl, β2, hle2, hs2⟩ := hb
           exact RRel.mono (CellRel.le_trans hle hle2) (RRel.err hs2)
+        · exact RRel.mono hle (RRel.timeout_left hb _)
+        · exact RRel.mono hle (RRel.timeout_left hb _)
         · exact RRel.timeout
     · obtain ⟨rfl, β1, hle, hs⟩ := hr
       exact RRel.mono hle (RRel.err hs)
+    · exact RRel.timeout_left hr _
+    · exact RRel.timeout_left hr _
     · exact RRel.timeout
 
 end DarkluaModel.Sem.Heap
